@@ -223,7 +223,7 @@ def _lazy_transform(ctx, P):
                 bad = bad or f"output_dtypes={od!r}; the lazy result needs the dtype of the transformed data"
             ocd = kw.get("output_core_dims")
             icd = kw.get("input_core_dims")
-            new_dims = [d for d in (ocd[0] if isinstance(ocd, list) and ocd else []) if not any(d in x for x in (icd or []))]
+            new_dims = [d for d in (ocd[0] if isinstance(ocd, (list, tuple)) and ocd else []) if not any(d in x for x in (icd or []))]
             if new_dims:
                 dg = kw.get("dask_gufunc_kwargs")
                 sizes = dg.get("output_sizes") if isinstance(dg, dict) else None
@@ -533,7 +533,7 @@ def _merge_all_inputs(ctx, P):
         return Obj("Variable", "variable", (), {"chunksizes": {dim: chunks[o.name], Sym("t"): (Lin.sym("ct"),)}})
 
     def chunk(ev, recv, args, kw, node):
-        return recv.with_eff(("chunk", args[0] if args else kw))
+        return recv.with_eff(("chunk", args[0] if args else kw.get("chunks", kw)))  # DataArray.chunk(chunks={...}) or chunk(**{...})
 
     am = dict(da_attr_models())
     am[("DataArray", "variable")] = variable
